@@ -1,1 +1,125 @@
+//! KB1 — inflateBack (`inflate::back`) on a typed stream: never touches memory outside the caller's window and the
+//! slices handed out by the input callback, for every distance code (C19, C02).
 use super::*;
+
+pub(crate) struct InDesc {
+    pub ptr: *const u8,
+    pub len: u32,
+    pub first: u32, // length of the first slice (callback slicing)
+    pub calls: u32,
+}
+pub(crate) unsafe extern "C" fn in_cb(desc: *mut core::ffi::c_void, buf: *mut *const u8) -> u32 {
+    let d = unsafe { &mut *(desc as *mut InDesc) };
+    d.calls += 1;
+    if d.calls == 1 {
+        unsafe { *buf = d.ptr };
+        d.first
+    } else if d.calls == 2 && d.first < d.len {
+        unsafe { *buf = d.ptr.add(d.first as usize) };
+        d.len - d.first
+    } else {
+        0
+    }
+}
+pub(crate) struct OutDesc {
+    pub total: u32,
+    pub calls: u32,
+    pub abort_at: u32,
+    pub last_ptr: usize,
+    pub last_len: u32,
+    pub data: [u8; 16],
+}
+pub(crate) unsafe extern "C" fn out_cb(desc: *mut core::ffi::c_void, buf: *mut u8, len: u32) -> i32 {
+    let d = unsafe { &mut *(desc as *mut OutDesc) };
+    d.calls += 1;
+    d.last_ptr = buf as usize;
+    d.last_len = len;
+    let mut i = 0;
+    while i < 16 {
+        if (i as u32) < len && (d.total as usize + i) < 16 {
+            d.data[d.total as usize + i] = unsafe { *buf.add(i) };
+        }
+        i += 1;
+    }
+    d.total += len;
+    if d.calls == d.abort_at {
+        1
+    } else {
+        0
+    }
+}
+
+/// Final fixed block: six 9-bit literals (0x90..), the length-3 code, byte aligned after 8 bytes; then 2 symbolic
+/// bytes carry the distance code and its extra bits: every distance 1..=32768 against a 256-byte window that holds
+/// 6 bytes.  Memory safety (window is a typed local: any access outside it is a CBMC pointer failure), status, and
+/// for in-window distances the bytes handed to `out`.
+#[kani::proof]
+#[kani::unwind(5)]
+#[kani::stub(crate::inflate::inftrees::inflate_table, stub_table_unreachable)]
+#[kani::stub(core::fmt::write, stub_fmt_write)]
+#[kani::stub(core::panicking::panic_nounwind, stub_pn)]
+#[kani::stub(core::panicking::panic_nounwind_fmt, stub_pnf)]
+#[kani::stub(crate::inflate::infback::inflate_fast_back, stub_fast_back_unreachable)]
+#[kani::stub(<[u16]>::fill, stub_fill_unreachable)]
+fn kb1_back_distance() {
+    let s0: u8 = kani::any();
+    let s1: u8 = kani::any();
+    let input: [u8; 10] = [0x9b, 0x30, 0x61, 0xc2, 0x84, 0x09, 0x13, 0x80, s0, s1];
+    let mut win = [0xEEu8; 256];
+    let mut state = State::new(&[], Writer::new(&mut []));
+    state.window = unsafe { Window::from_raw_parts(win.as_mut_ptr(), 256) };
+    state.wbits = 8;
+    state.flags.update(Flags::SANE, true);
+    let mut ind = InDesc { ptr: input.as_ptr(), len: 10, first: 10, calls: 0 };
+    let mut outd = OutDesc { total: 0, calls: 0, abort_at: 0, last_ptr: 0, last_len: 0, data: [0; 16] };
+    let mut strm = typed_stream(unsafe { &mut *(&mut state as *mut State) });
+    let rc = unsafe {
+        back(
+            &mut strm,
+            in_cb,
+            &mut ind as *mut _ as *mut core::ffi::c_void,
+            out_cb,
+            &mut outd as *mut _ as *mut core::ffi::c_void,
+        )
+    };
+    core::mem::forget(strm);
+    core::mem::forget(state);
+    assert!(matches!(rc, ReturnCode::StreamEnd | ReturnCode::DataError | ReturnCode::BufError));
+    // reference: distance code = 5 bits MSB-first, then extra bits LSB-first
+    let v = s0 as u32 | (s1 as u32) << 8;
+    let dsym = ((v & 31) as u8).reverse_bits() >> 3;
+    const DBASE: [u32; 30] = [1, 2, 3, 4, 5, 7, 9, 13, 17, 25, 33, 49, 65, 97, 129, 193, 257, 385, 513, 769, 1025, 1537, 2049, 3073, 4097, 6145, 8193, 12289, 16385, 24577];
+    const DEXT: [u32; 30] = [0, 0, 0, 0, 1, 1, 2, 2, 3, 3, 4, 4, 5, 5, 6, 6, 7, 7, 8, 8, 9, 9, 10, 10, 11, 11, 12, 12, 13, 13];
+    // everything given to `out` lies inside the caller's window
+    if outd.calls > 0 {
+        assert!(outd.last_ptr == win.as_ptr() as usize && outd.last_len <= 256);
+    }
+    if dsym >= 30 {
+        assert!(rc == ReturnCode::DataError);
+    } else if DEXT[dsym as usize] <= 11 {
+        let dist = DBASE[dsym as usize] + ((v >> 5) & ((1 << DEXT[dsym as usize]) - 1));
+        if dist > 6 {
+            // reaches before the start of the data: rejected, the six literals are still delivered
+            assert!(rc == ReturnCode::DataError);
+            assert!(outd.total == 6);
+        } else {
+            // in-window stream: same bytes as inflate would produce (LZ77 semantics), then the input ends
+            assert!(outd.total == 9);
+            let lit = [0x90u8, 0x91, 0x92, 0x93, 0x94, 0x95];
+            let mut i = 0;
+            while i < 9 {
+                let e = if i < 6 { lit[i] } else { outd.data[i - dist as usize] };
+                assert!(outd.data[i] == e);
+                i += 1;
+            }
+            assert!(matches!(rc, ReturnCode::BufError | ReturnCode::StreamEnd | ReturnCode::DataError));
+        }
+    }
+    // the window's own bytes beyond what was produced are untouched
+    let k: usize = kani::any();
+    kani::assume(k >= 9 && k < 256);
+    assert!(win[k] == 0xEE);
+    kani::cover!(dsym == 29, "largest distance code");
+    kani::cover!(dsym < 30 && rc == ReturnCode::DataError, "too-far distance rejected");
+    kani::cover!(outd.total == 9, "in-window match copied");
+}
